@@ -22,17 +22,26 @@ Fixpoint bgc_put (c : Z) (v : Z * Z) (st : bgc_state) : bgc_state :=
   end.
 
 (* kinds: 0 send; 1 contract call ok; 2 contract call failing (chargeable, still included);
-   3 contract call of an unknown function (chargeable); 5 built-in template *)
-Definition bgc_apply (st : bgc_state) (t : bg_txn) : option (bgc_state * bg_out) :=
+   3 contract call of an unknown function (chargeable); 5 built-in template.
+   With fees enabled the sender also pays bt_fee to the miner contract's wallet (token 998). *)
+Definition bgc_minersc : Z := 998.
+
+Definition bgc_credit (c amt : Z) (st : bgc_state) : bgc_state :=
+  if amt <=? 0 then st else
+  let '(n, bal) := match bgc_get c st with Some x => x | None => (0, 0) end in
+  bgc_put c (n, bal + amt) st.
+
+Definition bgc_apply (fee : bool) (st : bgc_state) (t : bg_txn) : option (bgc_state * bg_out) :=
   let '(n, bal) := match bgc_get (bt_client t) st with Some x => x | None => (0, 0) end in
+  let f := if fee then bt_fee t else 0 in
   if negb (bt_nonce t =? n + 1) then None else
   if bt_kind t =? 0 then
     if (bt_to t =? bt_client t) || (bal <? bt_fee t + bt_value t) || (bt_value t <=? 0) then None else
-    let st1 := bgc_put (bt_client t) (n + 1, bal - bt_value t) st in
-    let '(tn, tbal) := match bgc_get (bt_to t) st1 with Some x => x | None => (0, 0) end in
-    Some (bgc_put (bt_to t) (tn, tbal + bt_value t) st1, (0, 0))
+    let st1 := bgc_put (bt_client t) (n + 1, bal - bt_value t - f) st in
+    Some (bgc_credit bgc_minersc f (bgc_credit (bt_to t) (bt_value t) st1), (0, 0))
   else if (bt_kind t =? 4) then None
-  else Some (bgc_put (bt_client t) (n + 1, bal) st, (0, 2)).
+  else if bal <? f then None
+  else Some (bgc_credit bgc_minersc f (bgc_put (bt_client t) (n + 1, bal - f) st), (0, 2)).
 
 Definition bgc_snonce (st : bgc_state) (c : Z) : option Z :=
   match bgc_get c st with Some (n, _) => Some n | None => None end.
@@ -47,11 +56,11 @@ Record bgc_case := {
 }.
 
 Definition bgc_run (c : bgc_case) : option (list Z) * Z :=
-  match bg_generate bgc_state bgc_apply bgc_snonce (fun _ => 0) (fun _ => 0)
+  match bg_generate bgc_state (bgc_apply (bc_fee (bgc_cfg c))) bgc_snonce (fun _ => 0) (fun _ => 0)
           (bgc_cfg c) (bgc_accts c) (bgc_pool c) (bgc_bis c) with
   | GenOk b =>
       (Some (map (fun p => bt_hash (fst p)) (bk_txns b)),
-       match bg_verify bgc_state bgc_apply (fun _ => 0) (fun _ => 0) (bgc_cfg c) (bgc_accts c) b with
+       match bg_verify bgc_state (bgc_apply (bc_fee (bgc_cfg c))) (fun _ => 0) (fun _ => 0) (bgc_cfg c) (bgc_accts c) b with
        | VerOk _ _ _ => 0
        | VerFail w => w
        end)
